@@ -31,13 +31,31 @@ def run(ctx, n=None):
     root = os.path.join(ctx.scratch(), "c17")
     shutil.rmtree(root, ignore_errors=True)
     mod = levelb.Module(root)
-    cfgs = c01.special_cases()[:10] + [gen.gen_config(ctx.rng) for _ in range(n)]
+    cfgs = c01.special_cases()[:10] + c01.template_pkg_cases() + [gen.gen_config(ctx.rng) for _ in range(n)]
     cfgs += list(c10.defect_configs().values())
     violations, nontriv = [], set()
     dist = {"both_accepted": 0, "both_rejected": 0, "user_type_refs_in_stub": 0, "getters": 0}
     both = []
     for i, cfg in enumerate(cfgs):
         files = [gen.yaml_doc(cfg)]
+        if i % 7 == 0:
+            # the everyday history: generate into a fresh path, then generate again over what the same mode wrote before —
+            # accepted every time, in both modes, with the same bytes
+            hist = []
+            for rnd in range(3):
+                rn2, on2, pn2 = mod.gen_pkg("rn%03d" % i, files, over_previous_output=True)
+                rs2, os2, ps2 = mod.gen_pkg("rs%03d" % i, files, flags=["--stub"], over_previous_output=True)
+                hist.append((rn2, rs2, open(pn2, "rb").read() if rn2 == 0 else None, open(ps2, "rb").read() if rs2 == 0 else None, on2, os2))
+            dist["regenerated"] = dist.get("regenerated", 0) + 1
+            for d_ in ("rn%03d" % i, "rs%03d" % i):
+                shutil.rmtree(os.path.join(root, d_), ignore_errors=True)
+            bad = [(k, h) for k, h in enumerate(hist) if (h[0] != 0 or h[1] != 0) and (hist[0][0], hist[0][1]) == (0, 0)]
+            if bad:
+                k, h = bad[0]
+                violations.append({"sig": "verdict-differs" if (h[0] == 0) != (h[1] == 0) else "regeneration-rejected",
+                                   "what": "generation #%d into the same path (previous output of the same mode present from #2 on): normal exits %d, --stub exits %d: %s" % (k + 1, h[0], h[1], (h[4] if h[0] else h[5])[-300:]), "files": files})
+            elif any(h[2] != hist[0][2] or h[3] != hist[0][3] for h in hist):
+                violations.append({"sig": "regeneration-differs", "what": "a later generation over the previous output differs from the first", "files": files})
         rn, on, pn = mod.gen_pkg("n%03d" % i, files)
         rs, os_, ps = mod.gen_pkg("s%03d" % i, files, flags=["--stub"])
         if (rn == 0) != (rs == 0):
